@@ -142,8 +142,7 @@ def job_extents(jc):
     with shims.installed(sl + shims.numeric_shims("nanoemoji.write_font")):
         results = jc.explore(body)
     for r in results:
-        if r.exc is not None:
-            jc.inconclusive.append(f"_draw_glyph_extents raised {r.exc!r}")
+        if not jc.no_exception(r, inp, replay_extents, "C03:extents:raises"):
             continue
         b, ops = r.value
         area = (core.as_term(b[2]) - core.as_term(b[0])) * (core.as_term(b[3]) - core.as_term(b[1]))
@@ -230,8 +229,7 @@ def job_colr0_extents(jc):
     with C05.bounds_shims(hash_const=True), shims.installed(extra):
         results = jc.explore(body, feas_timeout_ms=1500)
     for r in results:
-        if r.exc is not None:
-            jc.inconclusive.append(f"_colr_ufo(0) raised {r.exc!r}")
+        if not jc.no_exception(r, inp, replay_colr0_extents, "C03:v0:extents:raises"):
             continue
         cgs, pens = r.value
         jc.reach(r, "ok")
